@@ -45,8 +45,10 @@ m = dict(
     checks=checks,
     not_applicable=na,
     notes='Family: static analysis. Every check inspects /repo\'s current source (type-checked MIR via a rustc driver) and '
-          'reports file:line + rule + instance. Exit 0 pass, 1 VIOLATION, 2 INCONCLUSIVE (unrecognised shape; never a '
-          'VIOLATION line). Fix commits in /repo: see known_findings.txt.',
+          'reports file:line + rule + instance. Exit 0: held on everything explored (a rule that met a shape outside its idiom '
+          'tables prints an INCONCLUSIVE line and is recorded in the evidence, but does not fail the check); exit 1 with a VIOLATION '
+          'line: a rule found the property broken; exit 2 only when the checker itself could not run (extraction / internal error). '
+          'Fix commits in /repo: see known_findings.txt.',
 )
 json.dump(m, open(os.path.join(HERE, 'MANIFEST.json'), 'w'), indent=1)
 print('checks', len(checks), 'not_applicable', len(na))
